@@ -287,6 +287,21 @@ class ReadRoles:
             return res
         if k == "try":
             return self.tuple_positions(e["e"])
+        if k in ("call", "mcall"):
+            fnp = e.get("fn") or ""
+            if fnp.endswith(("Result::Ok", "Option::Some")) and len(e.get("args", [])) == 1:
+                return self.tuple_positions(e["args"][0])
+            # a local helper that returns the tuple (its reads were inlined into the layout: same effect ids)
+            fid = e.get("resolved") or e.get("fn")
+            g = self.fx.fns.get(fid)
+            if g is not None and getattr(self, "_tp_depth", 0) < 3:
+                root = hirq.layout_root(g)
+                if root is not None:
+                    self._tp_depth = getattr(self, "_tp_depth", 0) + 1
+                    try:
+                        return self.tuple_positions(root)
+                    finally:
+                        self._tp_depth -= 1
         return None
 
     def add(self, lid, name, ids):
@@ -526,15 +541,26 @@ class Flattener:
             else:
                 role = self.roles.role_of(L["id"]) if self.roles else "?"
                 rr_ = _RR_CACHE.get((L["fn"], id(L["body"])))
-                if rr_ is not None and role not in ("reserved", "?", "count") and not rr_.role:
+                if rr_ is not None and not rr_.role:
                     # a helper that builds no struct itself: what it returns is what the caller stores
                     def retag(ts):
                         res_ = []
                         for tk in ts:
                             if tk[0] in ("a", "b") and len(tk) >= 4 - (tk[0] == "b") and tk[-1] in rr_.returned and tk[-2] == "reserved":
-                                tk = tk[:-2] + (role, tk[-1])
-                            elif tk[0] == "c" and len(tk) == 4 and tk[3] in rr_.returned and tk[2] == "reserved":
+                                # the caller may route this very read to one field (the helper returns a tuple that the
+                                # caller destructures); otherwise the helper's result as a whole carries the role
+                                own = self.roles.role_of(tk[-1]) if self.roles else "reserved"
+                                new_role = own if own not in ("reserved", "?") else role
+                                if new_role in ("reserved", "?", "count"):
+                                    res_.append(tk)
+                                    continue
+                                tk = tk[:-2] + (new_role, tk[-1])
+                            elif tk[0] == "c" and len(tk) == 4 and tk[3] in rr_.returned and tk[2] == "reserved" and role not in ("reserved", "?", "count"):
                                 tk = (tk[0], tk[1], role, tk[3])
+                            elif tk[0] in ("alt?",) and len(tk) == 4:
+                                tk = (tk[0], tk[1], tuple(retag(tk[2])), tuple(retag(tk[3])))
+                            elif tk[0] == "match" and len(tk) == 3:
+                                tk = (tk[0], tk[1], tuple((p_, tuple(retag(b_))) for p_, b_ in tk[2]))
                             elif tk[0] == "rep":
                                 tk = (tk[0], tk[1], tuple(retag(tk[2]))) + tuple(tk[3:])
                             res_.append(tk)
